@@ -9,7 +9,15 @@ Inductive case :=
       (hist : list (list Z)) (T : nat) (obs : res (list (list Z) * list (list nat)))
 (* cpl.evolve2d(hist, T, AsynchronousRule(...), r, neighbourhood) ; vn = 'von Neumann' *)
 | C2D (sp : rule_spec) (order : option (list (nat * nat))) (rand : bool) (ps : list (list nat)) (r : nat) (vn : bool)
-      (hist : list grid) (T : nat) (obs : res (list grid * list (list nat))).
+      (hist : list grid) (T : nat) (obs : res (list grid * list (list nat)))
+(* reuse: ONE AsynchronousRule object through two consecutive evolve / evolve2d calls; obs = (history returned by
+   the first call ++ [[]] ++ history returned by the second call as grids, the log over both calls) *)
+| C1DR (sp : rule_spec) (order : option (list nat)) (rand : bool) (ps : list (list nat)) (r : nat)
+       (hist1 : list (list Z)) (T1 : nat) (hist2 : list (list Z)) (T2 : nat)
+       (obs : res (list (list Z) * list (list Z) * list (list nat)))
+| C2DR (sp : rule_spec) (order : option (list (nat * nat))) (rand : bool) (ps : list (list nat)) (r : nat) (vn : bool)
+       (hist1 : list grid) (T1 : nat) (hist2 : list grid) (T2 : nat)
+       (obs : res (list grid * list grid * list (list nat))).
 
 (* uniform printable output: the history as a list of grids (a 1D row is a one-row grid) and the log of
    the wrapped rule as [c; t] (1D) or [row; col; t] (2D) *)
@@ -23,12 +31,23 @@ Definition model_out (c : case) : res (list grid * list (list nat)) :=
       bind (async_evolve2d sp o rand ps r (if vn then VonNeumann else Moore) hist T)
            (fun gl => Ok (fst gl,
                           map (fun e : call2 => [fst (snd (fst e)); snd (snd (fst e)); snd e]) (snd gl)))
+  | C1DR sp o rand ps r h1 T1 h2 T2 _ =>
+      bind (async_evolve1d_twice sp o rand ps r h1 T1 h2 T2)
+           (fun x => Ok (map (fun row => [row]) (fst (fst x)) ++ [[]] ++ map (fun row => [row]) (snd (fst x)),
+                         map (fun e : call1 => [snd (fst e); snd e]) (snd x)))
+  | C2DR sp o rand ps r vn h1 T1 h2 T2 _ =>
+      bind (async_evolve2d_twice sp o rand ps r (if vn then VonNeumann else Moore) h1 T1 h2 T2)
+           (fun x => Ok (fst (fst x) ++ [[]] ++ snd (fst x),
+                         map (fun e : call2 => [fst (snd (fst e)); snd (snd (fst e)); snd e]) (snd x)))
   end.
 
 Definition observed (c : case) : res (list grid * list (list nat)) :=
   match c with
   | C1D _ _ _ _ _ _ _ o => bind o (fun rl => Ok (map (fun row => [row]) (fst rl), snd rl))
   | C2D _ _ _ _ _ _ _ _ o => o
+  | C1DR _ _ _ _ _ _ _ _ _ o =>
+      bind o (fun x => Ok (map (fun row => [row]) (fst (fst x)) ++ [[]] ++ map (fun row => [row]) (snd (fst x)), snd x))
+  | C2DR _ _ _ _ _ _ _ _ _ _ o => bind o (fun x => Ok (fst (fst x) ++ [[]] ++ snd (fst x), snd x))
   end.
 
 Definition out_eqb (a b : list grid * list (list nat)) : bool :=
